@@ -8,7 +8,11 @@ import (
 	"errors"
 	"fmt"
 	"io"
+	"io/fs"
+	"os"
+	"path/filepath"
 	"runtime/debug"
+	"sort"
 	"strings"
 	"time"
 
@@ -149,6 +153,21 @@ func WalkIterRoot(root *gtree.Node, breakAt int, opts ...gtree.Option) ([]WalkRe
 	return recs, o
 }
 
+// RangeWalk ranges over an iterator created earlier.
+func RangeWalk(it func(func(*gtree.WalkerNode, error) bool)) ([]WalkRec, Outcome) {
+	var recs []WalkRec
+	o := Guard(func() error {
+		for wn, err := range it {
+			if err != nil {
+				return err
+			}
+			recs = append(recs, recOf(wn))
+		}
+		return nil
+	})
+	return recs, o
+}
+
 func OutputRoot(root *gtree.Node, opts ...gtree.Option) Outcome {
 	var buf bytes.Buffer
 	o := Guard(func() error { return gtree.OutputFromRoot(&buf, root, opts...) })
@@ -192,6 +211,32 @@ func WalkIterRootAlias(root *gtree.Node, opts ...gtree.Option) ([]WalkRec, Outco
 		return nil
 	})
 	return recs, o
+}
+
+// MkdirRootFresh makes the tree below a fresh directory and returns the relative paths created (directories end in "/").
+func MkdirRootFresh(root *gtree.Node, opts ...gtree.Option) ([]string, Outcome) {
+	tmp, err := os.MkdirTemp("", "verif-apimk-")
+	if err != nil {
+		return nil, Outcome{Err: err}
+	}
+	defer os.RemoveAll(tmp)
+	o := Guard(func() error {
+		return gtree.MkdirFromRoot(root, append([]gtree.Option{gtree.WithTargetDir(tmp)}, opts...)...)
+	})
+	var got []string
+	filepath.WalkDir(tmp, func(p string, d fs.DirEntry, err error) error {
+		if err != nil || p == tmp {
+			return nil
+		}
+		rel, _ := filepath.Rel(tmp, p)
+		if d.IsDir() {
+			rel += "/"
+		}
+		got = append(got, rel)
+		return nil
+	})
+	sort.Strings(got)
+	return got, o
 }
 
 // VerifyRootMissing verifies a programmatic tree against a directory that does not exist.
